@@ -366,7 +366,11 @@ class Item:
         if f.rename is not None:
             attrs.append(f'{indent}#[scale_info(rename = {rs(f.rename)})]\n')
         # doc lines keep their relative order; helper attributes are interleaved in a random order
-        s = shuffled(attrs) + render_docs(f.docs, indent) if ATTR_RNG.random() < 0.5 else render_docs(f.docs, indent) + shuffled(attrs)
+        order = getattr(f, 'attr_order', None)
+        if order is not None:
+            s = ''.join(attrs if order == 'fwd' else attrs[::-1]) + render_docs(f.docs, indent)
+        else:
+            s = shuffled(attrs) + render_docs(f.docs, indent) if ATTR_RNG.random() < 0.5 else render_docs(f.docs, indent) + shuffled(attrs)
         ty = self.src_type(f.ty)
         s += f'{indent}{pub}{f.ident}: {ty},\n' if f.ident is not None else f'{indent}{pub}{ty},\n'
         return s
@@ -423,7 +427,8 @@ class Item:
                     vattrs.append(f'{indent}    #[codec(skip)]\n')
                 if v.index is not None:
                     vattrs.append(f'{indent}    #[codec(index = {v.index})]\n')
-                s += shuffled(vattrs)
+                order = getattr(v, 'attr_order', None)
+                s += shuffled(vattrs) if order is None else ''.join(vattrs if order == 'fwd' else vattrs[::-1])
                 s += f'{indent}    {v.ident}' + self.render_shape(v.shape, v.fields, indent + '    ', False)
                 if v.disc is not None:
                     s += f' = {v.disc}'
@@ -583,15 +588,43 @@ def main():
         [T('ref', T('str')), T('cow', T('slice', u8)), T('range', u8), T('rangei', u32), T('set', u16), T('map', u8, T('arr', T('tup', u8, u8), n=2)), T('string')],
         [T('lcow_str'), T('lref_str'), T('vec', T('opt', T('tup', u8, T('tup', u16, u32)))), T('opt', T('lref_str'))],
     ]
-    for fields in CATALOGUE:
+    def cat_item(mods=()):
         k = len(items)
-        it = Item(k, random.Random(424242 + k), [], [])
+        it = Item(k, random.Random(424242 + k), [], list(mods))
         it.ident, it.is_enum, it.params, it.skip_params, it.replace, it.docs = f'Catalogue{k}', False, [], [], [], []
         it.capture, it.capture_text, it.explicit_capture = 'd', 'default', False
-        it.lifetime = any(s_.kind in ('lcow_str', 'lref_str') for f in fields for s_ in f.subterms())
-        it.shape, it.fields = 'n', [Field(f'c{i}', f) for i, f in enumerate(fields)]
-        it.variants = []
+        it.lifetime, it.shape, it.fields, it.variants, it.clike = False, 'n', [], [], False
         items.append(it)
+        return it
+    for fields in CATALOGUE:
+        it = cat_item()
+        it.lifetime = any(s_.kind in ('lcow_str', 'lref_str') for f in fields for s_ in f.subterms())
+        it.fields = [Field(f'c{i}', f) for i, f in enumerate(fields)]
+    # markers as generic arguments (they are registered as types of their own), each followed by types first met afterwards
+    it = cat_item()
+    it.fields = [Field(f'c{i}', f) for i, f in enumerate([T('opt', T('ph', u8)), T('u', n=64), T('vec', T('ph', u16)), T('string'), T('arr', T('ph', u8), n=2),
+                                                          T('tup', bl, T('i', n=16)), T('res', T('ph', T('tup0')), T('i', n=8))])]
+    # two helper attributes on one member / variant, in both orders
+    it = cat_item()
+    fs = [Field('a', u32, compact=True, rename='r1'), Field('b', T('u', n=64), compact=True, rename='r2'), Field('c', u8, skip=True, rename='r3'),
+          Field('d', u16, skip=True, rename='r4'), Field('e', bl)]
+    for f, o in zip(fs, ['fwd', 'rev', 'fwd', 'rev', 'fwd']):
+        f.attr_order = o
+    it.fields = fs
+    it = cat_item()
+    it.is_enum = True
+    vs = [Variant('Keep0', 'u', []), Variant('SkipA', 'n', [Field('x', u8)], skip=True, index=7), Variant('SkipB', 'x', [Field(None, u16)], skip=True, index=9),
+          Variant('Idx', 'x', [Field(None, u32)], index=13), Variant('Last', 'n', [Field('a', u8)])]
+    for v, o in zip(vs, ['fwd', 'fwd', 'rev', 'fwd', 'fwd']):
+        v.attr_order = o
+    it.variants = vs
+    # segment replacement: a segment occurring twice, rows that chain, the same search segment in two rows
+    it = cat_item(mods=['cat', 'cat'])
+    it.replace, it.fields = [('cat', 'x')], [Field('a', u8)]
+    it = cat_item(mods=['a1', 'b1'])
+    it.replace, it.fields = [('a1', 'b1'), ('b1', 'a1')], [Field('a', u8)]
+    it = cat_item()
+    it.replace, it.fields = [('gen_derive', 'dup'), ('gen_derive', 'dup2'), ('nomatch', 'z')], [Field('a', u8)]
     # items left out on request, and everything that refers to one of them (references only go to earlier items)
     excluded = set()
     want_out = {int(x) for x in a.exclude.split(',') if x.strip()}
